@@ -184,6 +184,10 @@ def evaluate(dep, program):
         vv, info = judge_rejection(dep, rec, L, PROPERTY, probes)
         v += vv
     probes["lstar_evals"] = L.evals
+    for li, lib in enumerate(dep.world.libraries):
+        bad = lib.modified_in_place()
+        if bad:
+            v.append(Violation("C02", "C02.input-modified", "C02:library-object-modified-in-place-by-a-call", "library %d: column(s) %s of the user's JokerSamples object no longer hold what was put there; later calls see another library" % (li, bad)))
     if program.get("scale_probe"):
         probes["scale_probe_runs(N>2**20)"] = 1
     if program["config"].get("ll_override"):
